@@ -330,15 +330,25 @@ impl quinn::AsyncUdpSocket for FabricSocket {
 /// When set, the next endpoint created gets this fabric port instead of its UDP socket's port
 /// (restart of a node at the address it had before).
 pub static NEXT_PORT: Mutex<Option<u16>> = Mutex::new(None);
+static AUTO_PORT: std::sync::atomic::AtomicU16 = std::sync::atomic::AtomicU16::new(30000);
+
+/// A port nobody else on the current fabric has (reset by `install`).
+pub fn auto_port() -> u16 {
+    AUTO_PORT.fetch_add(1, std::sync::atomic::Ordering::Relaxed)
+}
 
 /// Installs the anemo socket-injection factory: every `Endpoint::new` in this process gets a
 /// fabric socket at the port of the UDP socket it was given (which is then unused).
 pub fn install(fabric: &Arc<Fabric>) {
     let f = fabric.clone();
-    anemo::verif::set_socket_factory(Some(Box::new(move |sock: &std::net::UdpSocket| {
+    // Ports are handed out by the fabric itself: the bound std socket is dropped by `Endpoint::new`
+    // once the abstract socket replaces it, so the kernel may give the same ephemeral port to a
+    // later endpoint of the same scenario, and two fabric sockets would share an address.
+    AUTO_PORT.store(30000, std::sync::atomic::Ordering::Relaxed);
+    anemo::verif::set_socket_factory(Some(Box::new(move |_sock: &std::net::UdpSocket| {
         let port = match NEXT_PORT.lock().unwrap().take() {
             Some(p) => p,
-            None => sock.local_addr().ok()?.port(),
+            None => auto_port(),
         };
         Some(f.socket(port) as Arc<dyn quinn::AsyncUdpSocket>)
     })));
